@@ -11,6 +11,13 @@ def refix(text, ours):
     t = re.sub(r"isinstance\(([^()]+?), ACloseable\)", r'hasattr(\1, "aclose")', t)
     if "isawaitable" in ours and re.search(r"^from inspect import", ours, re.M):
         t = re.sub(r"^from inspect import (.*)$", lambda m: m.group(0) if "isawaitable" in m.group(1) else f"from inspect import {m.group(1)}, isawaitable", t, flags=re.M)
+    if "return await self._peer.__anext__()" in ours:
+        # repo fix 7a2b048: TeePeer.__anext__ became a coroutine function
+        t = t.replace("def __anext__(self) -> Awaitable[T]:", "async def __anext__(self) -> T:")
+        t = t.replace("return self._peer.__anext__()", "return await self._peer.__anext__()")
+        t = re.sub(r"return _await_value\((.*)\)", r"return \1", t)
+        if "async def __anext__" not in t and "async def __anext__" in ours and "def __anext__" not in t:
+            pass
     if "is not sentinel and value != sentinel" in ours:
         t = re.sub(r"\b(value) != ((?:self\._)?sentinel)\b", r"\1 is not \2 and \1 != \2", t)
     return t
